@@ -301,6 +301,20 @@ def old_thin_family():
     return out
 
 
+def hair_family():
+    """deterministic: a leaf of width 2^-15 (15 bisections towards x = 0) whose time interval ends at 0.5, evaluated a
+    relative 1.5e-10 ... 9.5e-10 after its end (parabolic ratio 12 ... 2), inside, at its end points and just outside"""
+    out = []
+    for curve in ('UnitSquare', 'Circle'):
+        for u in (0.0, 0.3, 0.7, 1.0):
+            for xcl, v in (('interior', 0.5), ('interior', 0.1), ('end_b', 0.0), ('end_a', 0.0), ('mid_out', 0.52), ('near_out', 0.9)):
+                out.append({'kind': 'point', 'spec': {'kind': 'param', 'curve': curve, 'ts': [0.0, 0.5, 1.0], 'xs': None},
+                            'ops': [['x', ['x0', 0]]] + [['x', ['last0', 0]]] * (14 if curve == 'UnitSquare' else 15),
+                            'ei': 0, 'pick': 'narrowest', 'min_hx': None, 'tcl': 'hair_after_end', 'tpar': u,
+                            'xcl': xcl, 'xpar': v, 'xi': 1, 'side': 1})
+    return out
+
+
 def facing_all_leaves():
     """every leaf of the uniformly refined thin plate with the point exactly opposite, at a time for which the kernel
     argument delta^2/(4 tau) is about 3 (the value is sizeable) at parabolic ratio 11 / 2.8: the leaves in the middle
@@ -317,7 +331,7 @@ def facing_all_leaves():
 
 def run(ctx):
     fam = facing_family()
-    for case in ctx.mine((fam if not ctx.quick else fam[(ctx.seed % 2)::2]) + facing_all_leaves() + old_thin_family()):
+    for case in ctx.mine((fam if not ctx.quick else fam[(ctx.seed % 2)::2]) + facing_all_leaves() + old_thin_family() + hair_family()):
         body(case, ctx.rec)
     n = ctx.share(32000 if ctx.quick else 320000)
     explore(ctx, cases(), body, n)
